@@ -153,6 +153,12 @@ pub(crate) fn literal_mem_default() -> TransactionalMemory {
     literal_mem(hh::any_two_valid_slots_header(0), None)
 }
 
+/// every field a constant (one symbolic byte inside an Arc'ed struct defeats CBMC's constant
+/// propagation for the whole struct: DESIGN.md 9.1)
+pub(crate) fn literal_mem_concrete() -> TransactionalMemory {
+    literal_mem(hh::concrete_header(), None)
+}
+
 fn literal_mem(header: DatabaseHeader, allocators: Option<Allocators>) -> TransactionalMemory {
     TransactionalMemory {
         unpersisted: Mutex::new(UnpersistedState::default()),
